@@ -13,7 +13,7 @@ var anchorTable = map[string]bool{}
 func init() {
 	for _, n := range []string{
 		// serving
-		"Mux.ServeHTTP", "Mux.encError", "Mux.serveGRPC", "Mux.serveGRPCWeb", "Mux.serveHTTP", "Mux.serveWebsocket",
+		"Mux.ServeHTTP", "Mux.encError", "Mux.serveGRPC", "Mux.serveGRPCWeb", "CodecJSON.Marshal", "CodecJSON.MarshalAppend", "Mux.serveHTTP", "Mux.serveWebsocket",
 		"streamGRPC.RecvMsg", "streamGRPC.SendMsg", "streamGRPC.SendHeader", "streamHTTP.SendMsg", "streamHTTP.RecvMsg",
 		"streamHTTP.decodeRequestArgs", "streamHTTP.readMsg", "streamHTTP.writeMsg", "streamHTTP.getCodec",
 		"streamWS.RecvMsg", "streamWS.SendMsg",
